@@ -15,7 +15,7 @@ func c09Cfg() *DeclCfg {
 	return &DeclCfg{
 		MaxDepth: 3, MaxFan: 3, PCmds: 75, Types: types, OptsMin: 1, OptsMax: 3, SubGroupsMax: 1, PInline: 20, NestMax: 1,
 		PNamespace: 25, PShortOnly: 20, PLongOnly: 20, PRequired: 25, PChoices: 15, PProgAttr: 30, POptional: 15, PHiddenCmd: 15,
-		PPos: 30, PosMax: 2, PRest: 40, PPosReq: 50, PExec: 100, PSubOptional: 30, PAliases: 20,
+		PPos: 30, PosMax: 2, PRest: 40, PPosReq: 50, PExec: 85, PByTag: 100, PSubOptional: 30, PAliases: 20,
 		ParserOpts: []flags.Options{flags.HelpFlag, flags.HelpFlag | flags.PassDoubleDash, flags.PassDoubleDash, 0, flags.HelpFlag | flags.PassDoubleDash | flags.PassAfterNonOption},
 		PosTypes:   []TypeSpec{{K: KString}, {K: KInt}},
 	}
